@@ -5,10 +5,12 @@ import (
 	"fmt"
 	"io"
 	"net"
+	"strings"
 	"sync"
 	"time"
 
 	"ergo.services/ergo/gen"
+	"ergo.services/ergo/lib"
 	"ergo.services/ergo/net/edf"
 	"ergo.services/ergo/net/handshake"
 	"ergo.services/ergo/net/proto"
@@ -104,7 +106,7 @@ func (c *k5core) MakeRef() gen.Ref {
 func (c *k5core) RouteNodeDown(gen.Atom, error) {}
 
 func (c *k5core) record(from, to uint64, kind byte, m any, name ...string) error {
-	seq, _ := m.(int64)
+	seq, _ := k5seqOf(m)
 	c.mu.Lock()
 	ch := c.hold[seq]
 	c.mu.Unlock()
@@ -173,6 +175,8 @@ type k5frame struct {
 	Type     byte
 	From, To uint64
 	Seq      int64
+	Z        bool   // the frame travelled compressed (protoMessageZ envelope); Order is the envelope's byte
+	Inner    []byte // the unpacked original frame of a compressed one
 }
 
 // k5link carries bytes from A to B; B can read only what the harness released.
@@ -282,6 +286,14 @@ func (l *k5link) frames() []k5frame {
 		}
 		b := l.buf[off : off+n]
 		f := k5frame{Off: off, End: off + n, Order: b[6], Type: b[7], Seq: -1}
+		if b[7] == 200 && n > 9 { // protoMessageZ: unpack the original frame (9 byte envelope header)
+			if in := k5unpack(b); len(in) >= 8 {
+				f.Z, f.Inner, f.Type = true, in, in[7]
+				b = in
+			}
+		}
+		n0 := n
+		n = len(b)
 		if n >= 33 && b[7] == 101 { // protoMessagePID: from@8, to@25
 			f.From = binary.BigEndian.Uint64(b[8:16])
 			f.To = binary.BigEndian.Uint64(b[25:33])
@@ -294,7 +306,7 @@ func (l *k5link) frames() []k5frame {
 			f.From = binary.BigEndian.Uint64(b[8:16])
 		}
 		fs = append(fs, f)
-		off += n
+		off += n0
 	}
 	return fs
 }
@@ -407,6 +419,10 @@ func k5decodeSeq(l *k5link, fs []k5frame) {
 	defer l.mu.Unlock()
 	for i := range fs {
 		f := &fs[i]
+		b := l.buf[f.Off:f.End]
+		if f.Inner != nil {
+			b = f.Inner
+		}
 		off := -1
 		switch f.Type {
 		case 101:
@@ -414,18 +430,57 @@ func k5decodeSeq(l *k5link, fs []k5frame) {
 		case 104:
 			off = 49
 		case 102:
-			if f.Off+26 <= f.End {
-				off = 26 + int(l.buf[f.Off+25])
+			if 26 <= len(b) {
+				off = 26 + int(b[25])
 			}
 		}
-		if off < 0 || f.Off+off > f.End {
+		if off < 0 || off > len(b) {
 			continue
 		}
-		v, _, err := edf.Decode(l.buf[f.Off+off:f.End], edf.Options{})
+		v, _, err := edf.Decode(b[off:], edf.Options{})
 		if err == nil {
-			if s, ok := v.(int64); ok {
+			if s, ok := k5seqOf(v); ok {
 				f.Seq = s
 			}
 		}
 	}
+}
+
+// k5seqOf: the sequence number a harness payload carries: an int64, or (large, compressible messages) a
+// string "<seq>:xxxx…".
+func k5seqOf(m any) (int64, bool) {
+	switch v := m.(type) {
+	case int64:
+		return v, true
+	case string:
+		var s int64
+		if _, err := fmt.Sscanf(v, "%d:", &s); err == nil {
+			return s, true
+		}
+	}
+	return 0, false
+}
+
+// k5bigPayload is a payload above the compression threshold the harness uses (100 bytes).
+func k5bigPayload(seq int64) string { return fmt.Sprintf("%d:", seq) + strings.Repeat("x", 300) }
+
+// k5unpack returns the original frame inside a protoMessageZ envelope (nil when it does not unpack).
+func k5unpack(b []byte) []byte {
+	src := &lib.Buffer{B: append([]byte(nil), b...)}
+	var dst *lib.Buffer
+	var err error
+	switch b[8] {
+	case gen.CompressionTypeGZIP.ID():
+		dst, err = lib.DecompressGZIP(src, 9)
+	case gen.CompressionTypeLZW.ID():
+		dst, err = lib.DecompressLZW(src, 9)
+	case gen.CompressionTypeZLIB.ID():
+		dst, err = lib.DecompressZLIB(src, 9)
+	default:
+		return nil
+	}
+	if err != nil || dst == nil {
+		return nil
+	}
+	return append([]byte(nil), dst.B...)
 }
